@@ -149,6 +149,7 @@ def enumerate_case(case, mode, errnos, rep, tier, rng):
     folded = [c for c in phys.fold(base["calls"]) if not c.err]
     allc = [c for c in base["calls"] if phys.mutating(c) and not c.err]
     order = {id(c): i for i, c in enumerate(allc)}
+    first_of_run = {id(c) for c in folded}
     install_seq = None
     for c in allc:
         if step_label(sb, c, oroot, v) in ("renameVersion", "renameObject"):
@@ -173,6 +174,9 @@ def enumerate_case(case, mode, errnos, rep, tier, rng):
             T = canon_obj(sb, oroot)
             cls = "old" if T == T_old else ("new" if T == T_new else "other")
             label = step_label(sb, c, oroot, v)
+            if label.endswith("Copy") and id(c) not in first_of_run:
+                # a later copy_file_range of the same file (the end-of-file probe): the data is already there
+                label += "Eof"
             if label in ("staging", "other") and install_seq is not None and order.get(id(c), -1) > install_seq:
                 label = "cleanup"
             obs = dict(call="%s#%d %s %s" % (c.name, c.nth, c.kind, sb.rel(c.paths[-1]) if c.paths else ""), label=label, inject=inj,
